@@ -98,6 +98,11 @@ impl C14 {
         let want_pipes = rng.range(1, 4);
         for step in 0..=nops {
             let drain = step == nops;
+            if rng.below(12) == 0 {
+                if let Some(d) = perturb(&mut ax, rng, &Perturb { areas: true, hooks: true, clone: true }) {
+                    return fail(col, "neutral-operation-visible", d, &tail);
+                }
+            }
             // further handlers installed in the middle of the run leave the pipes and their contents alone
             if rng.below(24) == 0 {
                 let which = match rng.below(3) {
